@@ -63,6 +63,12 @@ CLAIMED = {
             "traffic directly behind the opening bytes, plus seeded k-way / byte-wise splits; scope version/type, the protocol the "
             "client parser succeeds with and exactly-once answers are compared with the table for the opening.",
             "TLS record processing and ALPN negotiation are stubbed at selected_alpn_protocol(); WebSocket clients wait for the handshake response before sending frames (RFC 6455 4.1)"),
+    "C15": ("5/C15", "Enumeration of connection phase at the trigger {idle, partial head, short/long/stuck request, HTTP/2 idle/short/"
+            "stuck stream, open WebSocket} x trigger source {callable, max_requests} x worker, plus seeded search over 1..6 such "
+            "connections, graceful_timeout / shutdown_timeout values, lifespan shutdown programs (fast, slow, hanging) and late "
+            "connection attempts / late HTTP/2 streams; judged against the ordering model of shutdown (stop accepting, drain, "
+            "cancel at the grace bound, lifespan shutdown, return) with exact virtual instants.",
+            "the listener is pre-opened by the harness; 'refused' for a late connection means never accepted by the application"),
 }
 
 NOT_APPLICABLE = {
